@@ -210,6 +210,11 @@ private theorem settleBatch_tie (c : Ctx) (aid : Nat) (v : AView) (hv : c.s.view
           exact hv
         simp only [view_of hv3, pure_bind]
 
+local macro "settle_norm" "[" ls:Lean.Parser.Tactic.simpLemma,* "]" : tactic =>
+  `(tactic| simp only [if_true, if_false, decide_true, decide_false, Bool.not_true, Bool.not_false, Bool.false_eq_true,
+      Bool.and_true, Bool.true_and, Bool.and_false, Bool.false_and, Bool.or_true, Bool.true_or, Bool.or_false, Bool.false_or,
+      List.nil_append, List.cons_append, List.append_nil, runSettlePlan_false, apply_ite Prod.snd, apply_ite Prod.fst, ite_self, $ls,*])
+
 /-- **CloseBatchAuction**: the round limit, the "nothing to compare with" case and the
     anti-sniping rule `1 − Quo(curr, last) ≥ rate`, each followed by the same settling steps -/
 theorem tie_CloseBatchAuction (c : Ctx) (aid : Nat) (v : AView) (hv : c.s.views[aid]? = some v)
@@ -221,23 +226,28 @@ theorem tie_CloseBatchAuction (c : Ctx) (aid : Nat) (v : AView) (hv : c.s.views[
   unfold closeBatch CloseBatchAuction
   simp only [view_of hv, hmi, hok, hML, pure_bind, Bool.not_true, Bool.false_eq_true, if_false,
     List.nil_append, List.cons_append]
+  -- the three decisions, on the model's side; then ONE normalisation of both sides with every
+  -- spelling of each fact (`=`/casts, `≥`/`<`/`≤`), so that the way the code arranges the tests —
+  -- nested ifs, a conjunction of flags, a predicate helper — does not matter
+  have h3 : shouldExtend mi.matchedLen v.matchedLen v.a.rate =
+      decide (Dec.one - (Dec.ofInt mi.matchedLen).quo (Dec.ofInt v.matchedLen) ≥ v.a.rate) := rfl
+  rw [h3]
   by_cases h1 : v.a.maxExt + 1 = v.a.endTimes.length
   · have h1' : ((v.a.maxExt : Int) + 1 = (v.a.endTimes.length : Int)) := by omega
-    simp only [h1, h1', if_true, decide_true, runSettlePlan_false]
+    settle_norm [h1, h1']
     rw [runSettle_calcBatch c aid v hv mi hmi, settleBatch_tie _ aid _ (setView_get hv)]
   · have h1' : ¬ ((v.a.maxExt : Int) + 1 = (v.a.endTimes.length : Int)) := by omega
-    simp only [h1, h1', if_false, decide_false, Bool.false_eq_true]
     by_cases h2 : v.matchedLen = 0
-    · simp only [h2, if_true, decide_true, runSettlePlan_false]
+    · settle_norm [h1, h1', h2]
       rw [runSettle_calcBatch c aid v hv mi hmi, runSettle_extendRound]
-    · simp only [h2, if_false, decide_false, Bool.false_eq_true]
-      have h3 : shouldExtend mi.matchedLen v.matchedLen v.a.rate =
-          decide (Dec.one - (Dec.ofInt mi.matchedLen).quo (Dec.ofInt v.matchedLen) ≥ v.a.rate) := rfl
-      rw [h3]
-      by_cases h4 : Dec.one - (Dec.ofInt mi.matchedLen).quo (Dec.ofInt v.matchedLen) ≥ v.a.rate
-      · simp only [h4, if_true, decide_true, runSettlePlan_false]
+    · by_cases h4 : Dec.one - (Dec.ofInt mi.matchedLen).quo (Dec.ofInt v.matchedLen) ≥ v.a.rate
+      · have h4a : ¬ (Dec.one - (Dec.ofInt mi.matchedLen).quo (Dec.ofInt v.matchedLen) < v.a.rate) := Int.not_lt.mpr h4
+        have h4b : v.a.rate ≤ Dec.one - (Dec.ofInt mi.matchedLen).quo (Dec.ofInt v.matchedLen) := h4
+        settle_norm [h1, h1', h2, h4, h4a, h4b]
         rw [runSettle_calcBatch c aid v hv mi hmi, runSettle_extendRound]
-      · simp only [h4, if_false, decide_false, Bool.false_eq_true, runSettlePlan_false]
+      · have h4a : Dec.one - (Dec.ofInt mi.matchedLen).quo (Dec.ofInt v.matchedLen) < v.a.rate := Int.not_le.mp h4
+        have h4b : ¬ (v.a.rate ≤ Dec.one - (Dec.ofInt mi.matchedLen).quo (Dec.ofInt v.matchedLen)) := h4
+        settle_norm [h1, h1', h2, h4, h4a, h4b]
         rw [runSettle_calcBatch c aid v hv mi hmi, settleBatch_tie _ aid _ (setView_get hv)]
 
 /-- **ExtendRound** -/
